@@ -111,6 +111,12 @@ def main():
         only = os.environ.get("VERIF_ONLY")
         if only:  # debugging aid; never used by registered commands
             harnesses = [h for h in harnesses if any(o in h.name for o in only.split(","))]
+        if os.environ.get("VERIF_DRY"):  # development aid: schedule only (phase A + harness list), nothing is decided
+            for h in harnesses:
+                print("DRY %s unwind=%d timeout=%d mem=%d optional=%s" % (h.name, h.unwind, h.timeout, h.mem_gb, h.optional))
+            print("DRY %s %s: %d cases, %d harnesses" % (prop, tier, len(cases), len(harnesses)))
+            run.cleanup()
+            os._exit(0)
         pre = props.native_findings(prop, run, facts) if hasattr(props, "native_findings") else []
         log("%s %s: %d cases, %d harnesses" % (prop, tier, len(cases), len(harnesses)))
         results = run.phase_b(harnesses, jobs=jobs)
